@@ -48,6 +48,8 @@ inductive Op where
   | dc (cutoffs : List (String × String × Int))
   | setdel (db rp : String) (id : Nat) (at_ : Int)
   | dropshard (id : Nat)
+  /-- `Client.PrecreateShardGroups(from, to)` -/
+  | pre (from_ to : Int)
 deriving Repr
 
 inductive Obs where
@@ -168,6 +170,7 @@ def step (s : State) : Op → State × Obs
     ({ data := r.data, store := r.store }, .dc r.log (fullDump d0) s.store.shards)
   | .setdel db rp id at_ => ({ s with data := setDeletedAt s.data db rp id at_ }, .ok)
   | .dropshard id => ({ s with data := dropShard s.data id modelNow }, .ok)
+  | .pre a b => ({ s with data := precreateShardGroups s.data a b }, .ok)
 
 /-- the model's trace on a list of operations -/
 def run : State → List Op → List (Op × Obs)
